@@ -65,7 +65,7 @@ func (b *Builder) build() {
 	b.M.TargetTriple = m.Triple
 	b.M.ModuleAsms = append(b.M.ModuleAsms, m.Asm...)
 	for _, d := range m.U.Defs {
-		b.M.NewTypeDef(d.Name, b.ts.Named(d.Name))
+		b.M.NewTypeDef(TypeName(d.Name), b.ts.Named(d.Name))
 		b.call("Module.NewTypeDef")
 	}
 	for _, c := range m.Comdats {
